@@ -150,6 +150,10 @@ func runC16(c *Check) {
 								if stt.Dir == types.RecvOnly && sc.Chan != nil && stt.Chan == sc.Chan {
 									sc.Select = sel
 								}
+								// the same channel read back from the request object (req.response)
+								if fa := loadOfField(stt.Chan, fResp); stt.Dir == types.RecvOnly && fa != nil && fa.X == ssa.Value(al) {
+									sc.Select = sel
+								}
 							}
 						}
 						if ta, ok := in2.(*ssa.TypeAssert); ok && ta.CommaOk {
@@ -350,6 +354,9 @@ func runC16(c *Check) {
 			if stt.Chan == sc.Chan {
 				recvIdx = i
 			}
+			if fa := loadOfField(stt.Chan, fResp); stt.Dir == types.RecvOnly && fa != nil && fa.X == ssa.Value(sc.Req) {
+				recvIdx = i // the same channel read back from the request object
+			}
 		}
 		recvEdge := func(iff *ssa.If, br int) bool {
 			r, ok := edgeRel(iff, br)
@@ -437,10 +444,12 @@ func runC16(c *Check) {
 		}
 		retTimeout := false
 		for _, ret := range returnsOf(sc.Fn) {
-			for _, v := range resultValues(ret, len(ret.Results)-1) {
-				if u, ok := v.(*ssa.UnOp); ok {
-					if g, ok := u.X.(*ssa.Global); ok && g.Name() == "ErrTimeout" {
-						retTimeout = true
+			for _, v0 := range resultValues(ret, len(ret.Results)-1) {
+				for _, v := range flattenPhi(v0, 0) { // `err = ErrTimeout; …; return err`
+					if u, ok := stripIfaceConv(v).(*ssa.UnOp); ok {
+						if g, ok := u.X.(*ssa.Global); ok && g.Name() == "ErrTimeout" {
+							retTimeout = true
+						}
 					}
 				}
 			}
